@@ -77,6 +77,8 @@ def main(tier, replay=None):
     batches.append(sysb)
     # conflict-directed small scope: label pairs whose look-ups touch the same bytes of library static storage (none on the unchanged tree)
     batches.append(Batch("conflict", exe, "C14", "conflict", seed, 64 * 4 * 529 if not q else 40000, 90 if q else 240, W, extra=extra("conflict")).run())
+    # narrow change counters (ABA): quick tries wraps after 2^8 replacements, thorough also after 2^16; nothing to do on the unchanged tree
+    batches.append(Batch("aba", exe, "C14", "aba", seed, 8 * 16 * 2 * 3 * 2 * (1 if q else 2), 90 if q else 900, W, extra=extra("aba")).run())
     # the libidn and idnkit source sets over their adapters: their eav.c / is_utf8_domain.c / is_6531_email.c copies are library code too
     for bk in ("idn", "idnkit"):
         exe_b, _ = build.build_sched("-" + bk, [], backend=bk)
